@@ -189,6 +189,45 @@ func (t Term) mul(u Term) Term {
 }
 func (t Term) lsh(e Affine) Term { return t.mul(termPow2(e)) }
 
+// subst replaces placeholder symbols by terms: a symbol that is a placeholder becomes the term (raised to the
+// symbol's power); inside the name of a function application the placeholder is replaced by the term's text.
+func (t Term) subst(sub map[string]Term) Term {
+	if t.Top || len(sub) == 0 {
+		return t
+	}
+	for _, u := range sub {
+		if u.Top {
+			return termTop()
+		}
+	}
+	res := termConst(0)
+	for _, m := range t.M {
+		prod := newTerm()
+		base := mono{coef: new(big.Int).Set(m.coef), syms: map[string]int{}, exp: m.exp}
+		prod.M[base.key()] = base
+		for sname, pw := range m.syms {
+			if u, ok := sub[sname]; ok {
+				for k := 0; k < pw; k++ {
+					prod = prod.mul(u)
+				}
+				continue
+			}
+			name := sname
+			for ph, u := range sub {
+				if strings.Contains(name, ph) {
+					name = strings.ReplaceAll(name, ph, u.String())
+				}
+			}
+			f := termOpaque(name)
+			for k := 0; k < pw; k++ {
+				prod = prod.mul(f)
+			}
+		}
+		res = res.add(prod, 1)
+	}
+	return res.norm()
+}
+
 // norm folds constant powers of two into coefficients.
 func (t Term) norm() Term {
 	if t.Top {
@@ -479,6 +518,7 @@ type BigEval struct {
 	Ret  map[*ssa.Call]Term   // term of the receiver just after a mutator call
 	Glob map[string]Term      // terms stored into package-level big.Int fields (by address descriptor)
 	Use  map[ssa.Instruction]map[ssa.Value]Term // terms of *big.Int operands at stores, map updates, returns
+	Inl  map[ssa.Value]Term                     // terms of the results of unexported helpers that were evaluated in place of the call
 }
 
 // store-to-load forwarding is kept inside the flow-sensitive state: a placeholder key per address
@@ -901,7 +941,20 @@ func (be *BigEval) inlineHelper(st btState, x *ssa.Call) {
 	var sub *BigEval
 	oldS := bindStructParams
 	bindStructParams = true
-	bindCall(x, g, func() { sub = be.P.bigEval(g) })
+	// the helper's integer parameters are placeholders while it is evaluated; afterwards they are replaced by the
+	// terms the arguments have at this call (their descriptors alone would lose what the caller computed into them)
+	place := map[string]Term{}
+	bindCall(x, g, func() {
+		args := callArgsRaw(x)
+		for k, p := range g.Params {
+			if k < len(args) && isBigIntPtr(p.Type()) {
+				ph := fmt.Sprintf("@inl%d@", k)
+				paramBind[p] = ph
+				place[ph] = be.termOf(st, args[k])
+			}
+		}
+		sub = be.P.bigEval(g)
+	})
 	bindStructParams = oldS
 	for _, k := range idx {
 		var t Term
@@ -913,6 +966,9 @@ func (be *BigEval) inlineHelper(st btState, x *ssa.Call) {
 				continue
 			}
 			rt, ok := sub.Use[ret][retValue(ret, k)]
+			if ok {
+				rt = rt.subst(place)
+			}
 			if n := rt.opaqueName(); !ok || rt.Top || (n != "" && !(n[0] >= 'A' && n[0] <= 'Z' && strings.Contains(n, "("))) {
 				// (a helper that merely hands on a value it obtained keeps its call descriptor)
 				agree = false
@@ -928,13 +984,18 @@ func (be *BigEval) inlineHelper(st btState, x *ssa.Call) {
 		if !agree || n == 0 {
 			continue
 		}
+		if be.Inl == nil {
+			be.Inl = map[ssa.Value]Term{}
+		}
 		if res.Len() == 1 {
 			st[x] = t
+			be.Inl[x] = t
 			continue
 		}
 		for _, r := range referrersOf(x) {
 			if ex, ok := r.(*ssa.Extract); ok && ex.Index == k {
 				st[ex] = t
+				be.Inl[ex] = t
 			}
 		}
 	}
